@@ -183,6 +183,13 @@ def lookupSym (s : Nat) : List (Val F) → Option (Val F)
   | .pair (.sym k) v :: rest => if k == s then some v else lookupSym s rest
   | _ :: rest => lookupSym s rest
 
+/-- symbol look-up in a concatenation (`iterate_rev_concatenation_mut`): operands right to left, items of a
+list operand forward, first match wins. Equal to `lookupSym s (flatItems v)` when the keys are distinct. -/
+def lookupRev (s : Nat) : Val F → Option (Val F)
+  | .concat l r => (lookupRev s r).orElse (fun _ => lookupRev s l)
+  | .list items => lookupSym s items
+  | v => lookupSym s [v]
+
 /-- `range_len`: end - start + 1 -/
 def rangeLen (s e : Number F) : Option (Number F) :=
   match Number.subtract fo e s with
@@ -265,7 +272,7 @@ def accessSym (s : Nat) (v : Val F) : Acc F :=
   | .list items => match lookupSym s items with
     | some x => .some x
     | none => .none
-  | .concat l r => match lookupSym s (flatItems l ++ flatItems r) with
+  | .concat l r => match (lookupRev s r).orElse (fun _ => lookupRev s l) with
     | some x => .some x
     | none => .none
   | .slice _ _ => .err .unsupported
